@@ -107,6 +107,9 @@ class PathCtx(object):
             return True
         if z3.is_false(s):
             return False
+        r = _ring_decides(cond)
+        if r is not None:
+            return r
         idx = len(self.taken)
         if idx < len(self.prefix):
             choice = self.prefix[idx]
@@ -150,6 +153,22 @@ class PathCtx(object):
             goal = z3.BoolVal(goal)
         self.obligations.append(Obligation(name, self.hyps(), goal, self.path_no, meta, kind,
                                            light=list(self.assumes) + list(self.pc)))
+
+
+def _ring_decides(cond):
+    """equalities that are polynomial identities are True without consulting the solver"""
+    from . import ring
+    try:
+        if z3.is_eq(cond) or z3.is_and(cond):
+            if ring.goal_is_ring_identity(cond):
+                return True
+        if z3.is_not(cond):
+            inner = cond.children()[0]
+            if (z3.is_eq(inner) or z3.is_and(inner)) and ring.goal_is_ring_identity(inner):
+                return False
+    except Exception:
+        return None
+    return None
 
 
 class ExploreResult(object):
